@@ -591,6 +591,11 @@ func runC03(c *Ctx) error {
 		if err := c.LoadReplay(&d); err != nil {
 			return err
 		}
+		var ic c03icase
+		if err := c.LoadReplay(&ic); err == nil && ic.Stream == "interp" {
+			c03interpStream(c, &ic) // three-way tie with the interpreter model (c03_interp.go)
+			return nil
+		}
 		if d.Re != nil {
 			c03reeval(c, *d.Re)
 		} else {
@@ -706,5 +711,6 @@ func runC03(c *Ctx) error {
 	c.Extra["random_cases"] = n
 	c.Extra["reevaluation_cases"] = c03reevalStreams(c)
 	c.Exhaustive = false
+	c03interpStream(c, nil) // three-way tie with the interpreter model (c03_interp.go)
 	return nil
 }
